@@ -251,6 +251,18 @@ func (vc *VC) specObject(sc *SpecScope, o types.Object) *Value {
 }
 
 func (vc *VC) specField(sc *SpecScope, v *Value, name string) *Value {
+	if v.K == VSlice {
+		switch name {
+		case "arr":
+			return intV(v.Arr, nil)
+		case "off":
+			return intV(v.Off, nil)
+		case "len":
+			return intV(v.Len, nil)
+		case "cap":
+			return intV(v.Cap, nil)
+		}
+	}
 	if v.K == VStruct {
 		if f := v.Fields[name]; f != nil {
 			return f
@@ -342,8 +354,13 @@ func (vc *VC) specIndex(sc *SpecScope, b, i *Value) *Value {
 			return intV(app("strat", b.Term, i.Term), types.Typ[types.Uint8])
 		}
 		if m, ok := under(b.T).(*types.Map); ok {
-			v, _ := vc.mapGet(sc.cur, b.T, m, b.Term, i.Term)
-			return v
+			kt, ok := scalarOf(i)
+			if !ok {
+				vc.specFail(sc, "composite map key")
+			}
+			// in specs m[k] is the stored value (unspecified outside the domain; guard with in(m, k))
+			mref := b.Term
+			return vc.loadShape(sc.cur, mapCompPrefix(b.T)+".val", m.Elem(), 2, func(h string) string { return sel2(h, mref, kt) })
 		}
 	}
 	vc.specFail(sc, "cannot index %v", b)
@@ -417,35 +434,70 @@ func (vc *VC) specQuant(sc *SpecScope, x *SQuant) *Value {
 	n := len(tmp.pc)
 	inner.cur = tmp
 	var binders []string
+	var boundNames []string
 	for _, v := range x.Vars {
-		vc.nbound++
-		bn := fmt.Sprintf("%s!%d", v.Name, vc.nbound)
+		bn := fmt.Sprintf("%s!%d", v.Name, vc.qdepth)
+		boundNames = append(boundNames, bn)
 		T := vc.resolveType(sc, v.Type)
 		srt := "Int"
 		if T != nil && shapeOf(T) == shBool {
 			srt = "Bool"
 			inner.names[v.Name] = &Value{K: VBool, T: T, Term: bn}
 		} else {
-			inner.names[v.Name] = intV(bn, T)
+			inner.names[v.Name] = wrapScalar(T, bn)
 		}
 		binders = append(binders, "("+bn+" "+srt+")")
 		// typed binders range over their type
-		if T != nil {
+		if T != nil && v.Type != "int" && v.Type != "int64" {
 			if lo, hi, ok := intRange(T); ok {
 				tmp.assume(app("<=", lo, bn, hi))
 			}
 		}
 	}
+	vc.qdepth++
 	body := vc.evalSpec(inner, x.Body)
+	vc.qdepth--
 	if body.K != VBool {
 		vc.specFail(sc, "quantifier body must be boolean")
 	}
-	facts := smtAnd(tmp.pc[n:]...)
+	// facts about typed heap cells read inside the body: those that mention a bound variable stay inside
+	// the quantifier, the others are facts of the enclosing state
+	var local []string
+	seenF := map[string]bool{}
+	for _, f := range tmp.pc[n:] {
+		if seenF[f] {
+			continue
+		}
+		seenF[f] = true
+		mentions := false
+		for _, b := range boundNames {
+			if strings.Contains(f, b) {
+				mentions = true
+				break
+			}
+		}
+		if mentions {
+			local = append(local, f)
+		} else {
+			sc.cur.assume(f)
+		}
+	}
+	facts := smtAnd(local...)
 	var t string
+	var qbody string
 	if x.Forall {
-		t = "(forall (" + strings.Join(binders, " ") + ") " + smtImp(facts, body.Term) + ")"
+		qbody = smtImp(facts, body.Term)
 	} else {
-		t = "(exists (" + strings.Join(binders, " ") + ") " + smtAnd(facts, body.Term) + ")"
+		qbody = smtAnd(facts, body.Term)
+	}
+	qbody = normalizeQuant(qbody, boundNames)
+	if pats := inferPatterns(qbody, boundNames); pats != "" && qbody != "true" && qbody != "false" {
+		qbody = "(! " + qbody + " " + pats + " :qid " + qidOf(x) + ")"
+	}
+	if x.Forall {
+		t = "(forall (" + strings.Join(binders, " ") + ") " + qbody + ")"
+	} else {
+		t = "(exists (" + strings.Join(binders, " ") + ") " + qbody + ")"
 	}
 	return boolV(t)
 }
@@ -486,11 +538,7 @@ func (vc *VC) specCall(sc *SpecScope, x *SCall) *Value {
 				}
 				if a.T != nil {
 					if _, ok := under(a.T).(*types.Map); ok {
-						vc.declareFun("maplen", "((Array Int Bool)) Int")
-						vc.addAxiom("(forall ((d (Array Int Bool))) (! (>= (maplen d) 0) :pattern ((maplen d))))")
-						vc.addAxiom("(= (maplen ((as const (Array Int Bool)) false)) 0)")
-						dom := vc.heapGet(sc.cur, mapCompPrefix(a.T)+".dom", "(Array Int (Array Int Bool))")
-						return intV(smtIte(smtEq(a.Term, "0"), "0", app("maplen", sel(dom, a.Term))), types.Typ[types.Int])
+						return intV(vc.mapLen(sc.cur, a.T, a.Term), types.Typ[types.Int])
 					}
 				}
 				return intV(app("strlen", a.Term), types.Typ[types.Int])
@@ -503,7 +551,11 @@ func (vc *VC) specCall(sc *SpecScope, x *SCall) *Value {
 					vc.specFail(sc, "in(): untyped map")
 				}
 				dom := vc.heapGet(sc.cur, mapCompPrefix(m.T)+".dom", "(Array Int (Array Int Bool))")
-				return boolV(smtAnd(smtNot(smtEq(m.Term, "0")), sel(sel(dom, m.Term), k.Term)))
+				kt, ok := scalarOf(k)
+				if !ok {
+					vc.specFail(sc, "in(): composite map key")
+				}
+				return boolV(smtAnd(smtNot(smtEq(m.Term, "0")), sel2(dom, m.Term, kt)))
 			case "fresh":
 				a := args()[0]
 				oldAlloc := "Alloc0"
@@ -606,8 +658,8 @@ func (vc *VC) specCall(sc *SpecScope, x *SCall) *Value {
 
 func (vc *VC) declareErrIs() {
 	vc.declareFun("errIs", "(Int Int) Bool")
-	vc.addAxiom("(forall ((e Int)) (! (=> (not (= e 0)) (errIs e e)) :pattern ((errIs e e))))")
-	vc.addAxiom("(forall ((t Int)) (! (=> (not (= t 0)) (not (errIs 0 t))) :pattern ((errIs 0 t))))")
+	vc.addAxiomKeyed([]string{"errIs"}, "(forall ((e Int)) (! (=> (not (= e 0)) (errIs e e)) :pattern ((errIs e e))))")
+	vc.addAxiomKeyed([]string{"errIs"}, "(forall ((t Int)) (! (=> (not (= t 0)) (not (errIs 0 t))) :pattern ((errIs 0 t))))")
 }
 
 func (vc *VC) applyPred(sc *SpecScope, pd *PredDef, args []*Value) *Value {
@@ -711,3 +763,11 @@ func (vc *VC) deepEq(sc *SpecScope, a *Value, sa *State, b *Value, sb *State) st
 }
 
 var _ = ast.Inspect
+
+func qidOf(x *SQuant) string {
+	t := x.String()
+	if len(t) > 40 {
+		t = t[:40]
+	}
+	return "q_" + mangle(t)
+}
